@@ -1,7 +1,8 @@
 ID = "C19"
 LEVEL = "other"
 CONTRACT_MODULES = ["contracts.madx"]
-FUNCTIONS = ["MadxEval.__init__@callbacks"]
+FUNCTIONS = ["MadxEval.__init__@callbacks", "MadxEval.assign_var@token-keys", "MadxEval.var@token-keys", "MadxEval.getitem@token-keys",
+             "MadxEval.getattr@token-keys"]
 # the arithmetic a parsed expression is made of: operator constructors and node evaluation (C04), dependency walkers (C05)
 import props.C04 as _p4      # noqa: E402
 BORROW = [("C04", [f for f in _p4.FUNCTIONS if not f.startswith("MutableRef.__i") and f not in ("AttrRef._set_value", "ItemRef._set_value")]), ("C05", ['MutableRef._get_dependencies', 'Ref._get_dependencies', 'BinOpExpr._get_dependencies', 'UnaryOpExpr._get_dependencies', 'LiteralExpr._get_dependencies', 'BuiltinRef._get_dependencies', 'CallRef._get_dependencies'])]
